@@ -455,6 +455,9 @@ def short(mu):
     if k == 'DelM':
         return 'DelM(%s)' % mu['m']
     if k == 'Meta':
-        ival = [sorted(as_dict(x).items()) for x in (mu['ival'] or [])]
+        # an absent condition and an explicit "no condition" are the same entry
+        ival = [sorted((k_, v_) for k_, v_ in as_dict(x).items()
+                       if not (k_ == 'cond' and v_ in (NONE, None)))
+                for x in (mu['ival'] or [])]
         return 'Meta(%s %s %s%s)' % (mu['m'], mu['prop'], mu['val'], ival or '')
     return k
